@@ -17,8 +17,8 @@ with `ast` and writes `<gen_dir>/SrcC01.lean` (module `Gen.SrcC01`):
     An "element kind" is the tag of the element that carries the item; for the tags in AMBIG (whose content depends on where
     they stand) it is `parentTag/tag`.  Tags computed at run time are wild cards: `<Tag>` (a member of scenario.Tag),
     `<xmlName>` (`_map_to_xml_prop(attr)`), `<camel>` (the bare regex of the goal-state writer).
-    Both tables come out of a small inter-procedural abstract interpretation (writer: which `etree.Element(...)` creation
-    sites reach which `append` / `extend` / `set` / `.text =`; reader: which element kinds reach which `find` / `findall` /
+    Both tables come out of a small inter-procedural abstract interpretation (writer: which `etree.Element(...)` /
+    `etree.SubElement(parent, ...)` creation sites reach which `append` / `extend` / `set` / `.text =`; reader: which element kinds reach which `find` / `findall` /
     `get`), so renaming locals, extracting helpers, re-ordering independent statements, if/else <-> conditional expression
     do not change the tables.
 
